@@ -3,7 +3,6 @@ package main
 import (
 	"bytes"
 	"context"
-	"crypto/x509"
 	"encoding/json"
 	"errors"
 	"fmt"
@@ -170,7 +169,8 @@ func panicSite() string {
 		if i := strings.Index(l, " +0x"); i > 0 {
 			l = l[:i]
 		}
-		if (strings.Contains(l, "/utls") || strings.Contains(l, "/repo/") || strings.Contains(l, "tls12-repo")) && strings.Contains(l, ".go:") && !strings.Contains(l, "harness/") {
+		// file:line lines that are neither the Go runtime / standard library nor the harness: the library under test
+		if strings.HasPrefix(l, "/") && strings.Contains(l, ".go:") && !strings.Contains(l, "harness/") && !strings.Contains(l, "/src/") {
 			if j := strings.LastIndex(l, "/"); j >= 0 {
 				l = l[j+1:]
 			}
@@ -672,8 +672,6 @@ func runConn(s *scenario, k int, cn *connScn, cs *certSet, cache tls.ClientSessi
 	}
 	log.emit(ce)
 }
-
-var _ = x509.NewCertPool
 
 func init() {
 	hlib.Register("run", func(in []byte, out *hlib.Out) error {
